@@ -160,7 +160,14 @@ class C10(Check):
                 if form < 0.3:
                     elems.append(f"{s0:#x}")
                 else:
-                    outer = f"{s0:#x}" if form < 0.7 else f"{max(1, s0 - 1):#x}-{s0 + 1:#x}"
+                    if form < 0.6 or len(cand_s) < 2:
+                        outer = f"{s0:#x}"
+                    elif form < 0.8:
+                        outer = f"{max(1, s0 - 1):#x}-{s0 + 1:#x}"
+                    else:
+                        # a range of sessions that really covers several requested sessions
+                        a_, b_ = sorted(rng.sample(cand_s, 2))
+                        outer = f"{a_:#x}-{b_:#x}"
                     if plan["scanner"] == "services":
                         a = rng.randrange(0, 0xF0)
                         inner = rng.choice([f"{a:#x}", f"{a:#x}-{a + rng.randrange(1, 12):#x}", f"{a:#x},{(a + 40) % 256:#x}", f"0x10-0x2f,{a}"])
@@ -180,6 +187,7 @@ class C10(Check):
                 if s_ == 1:
                     sv["16"] = sorted(set(sv["16"]) | set(sessions_))
             plan["drops_out"] = True
+            plan["deaf_dsc"] = rng.random() < 0.4
         plan["reset"] = rng.random() < 0.2
         plan["scan_response_ids"] = rng.random() < 0.25
         if plan["scanner"] == "identifiers":
@@ -208,6 +216,8 @@ class C10(Check):
         import copy
 
         for key, val in (("check_session", False), ("reset", False), ("tp", None), ("segment", "whole"), ("scan_response_ids", False)):
+            if key == "check_session" and plan.get("drops_out"):
+                continue  # session-dropping models only make sense together with --check-session
             if plan.get(key) != val:
                 p = copy.deepcopy(plan)
                 p[key] = val
@@ -238,7 +248,26 @@ class C10(Check):
 
     def _mk_ecu(self, plan: dict[str, Any]) -> ModelECU:
         model = {int(s): {int(k): v for k, v in sv.items()} for s, sv in plan["model"].items()}
-        return ModelECU(plan["ecu_seed"], model, {"p_identifier": plan["p_identifier"], "p_correct_payload_format": plan["p_format"]})
+        ecu = ModelECU(plan["ecu_seed"], model, {"p_identifier": plan["p_identifier"], "p_correct_payload_format": plan["p_format"]})
+        if plan.get("deaf_dsc"):
+            # after it fell back to the default session (reset), the ECU ignores the next session change request once
+            orig = ecu.respond
+            state = {"armed": False, "done": False}
+
+            async def respond(request: Any) -> Any:
+                pdu = request.pdu
+                if pdu[:2] == b"\x11\x00":
+                    state["armed"] = True
+                if state["armed"] and not state["done"] and pdu[:1] == b"\x10" and len(pdu) == 2 and pdu[1] != 0:
+                    state["done"] = True
+                    ecu.monitor.saw(ecu.state.session, pdu)
+                    ecu.replies.append((ecu.state.session, bytes(pdu), None))
+                    ecu.deaf_fired = True
+                    return None
+                return await orig(request)
+
+            ecu.respond = respond  # type: ignore[method-assign]
+        return ecu
 
     def _run(self, plan: dict[str, Any], world: CmdWorld, res: dict[str, Any]) -> None:
         world.net.policy_factory = lambda i, d: Policy(seed=plan["net_seed"] + 2 * i + (d == "s2c"), segment=plan["segment"], lat_min=plan["lat"][0], lat_max=plan["lat"][1])
@@ -278,13 +307,16 @@ class C10(Check):
         if out["kind"] not in ("return", "SystemExit") and not (out["kind"] == "return"):
             violation(res, "C10/exit", f"C10/exit:{plan['scanner']}:{out['kind']}", f"scan ended with {out['kind']} {out.get('exc')!r}")
             return
-        if out["exit"] not in (0, 1):
+        deaf = bool(getattr(ecu, "deaf_fired", False))
+        if deaf:
+            bump(res["faults"], "session_recovery_request_unanswered")
+        if out["exit"] not in (0, 1) and not (deaf and out["exit"] in (70, 74)):
             violation(res, "C10/exit", f"C10/exit:{plan['scanner']}:{out['exit']}", f"scan ended with exit code {out['exit']} ({out.get('exc')!r})")
             return
         # which sessions does the model say can be entered, in the order requested
         sess_list = plan["sessions"]
         if plan["scanner"] == "services":
-            self._judge_services(plan, model, skip, ecu, holder["cmd"], res, out)
+            self._judge_services(plan, model, skip, ecu, holder["cmd"], res, out, aborted=deaf)
         else:
             self._judge_identifiers(plan, model, skip, ecu, msgs, res, out)
         res["shape"] = f"{plan['scanner']}|{plan.get('service')}|n{len(model)}|sess{sess_list}|skip{len(skip)}|{'C' if plan['check_session'] else ''}{'R' if plan['reset'] else ''}{'I' if plan['scan_response_ids'] else ''}|{res['note'].get('summary', '')}"
@@ -312,7 +344,7 @@ class C10(Check):
                     cur = 1
         return entered
 
-    def _judge_services(self, plan: dict[str, Any], model: dict[int, dict[int, Any]], skip: dict[int, Any], ecu: ModelECU, cmd: Any, res: dict[str, Any], out: dict[str, Any]) -> None:
+    def _judge_services(self, plan: dict[str, Any], model: dict[int, dict[int, Any]], skip: dict[int, Any], ecu: ModelECU, cmd: Any, res: dict[str, Any], out: dict[str, Any], aborted: bool = False) -> None:
         import asyncio
 
         if plan["sessions"] is None:
@@ -323,7 +355,7 @@ class C10(Check):
         for key, sid in cmd.result:
             got.setdefault(key, set()).add(sid)
         want_keys = {k for k, _ in scanned}
-        if set(got) - want_keys:
+        if set(got) - want_keys and not aborted:
             violation(res, "C10/services", "C10/services:findings-for-unentered-session", f"findings reported for sessions {sorted(set(got) - want_keys)} which cannot be entered (model sessions {sorted(model)})")
         # independent copy of the model answers the probes
         copy = self._mk_ecu(plan)
@@ -357,7 +389,7 @@ class C10(Check):
                 ans = answers(sess, sid)
                 meaningful = any(a is not None and not (a[0] == 0x7F and len(a) == 3 and a[2] in (0x11, 0x7F, 0x13)) for a in ans)
                 # the scan stops at the first 0x11/0x7F answer; an implemented service never gets those
-                if meaningful and sid not in reported:
+                if meaningful and sid not in reported and not aborted:
                     violation(res, "C10/services", "C10/services:implemented-but-not-reported", f"session {sess:#x}: service {sid:#x} answers the probes with {[a.hex() if a else None for a in ans]} but was not reported")
                 if meaningful:
                     n_found += 1
@@ -366,6 +398,12 @@ class C10(Check):
             # every expected sid probed in the claimed session; skipped / response ids never probed there
             probed_here = {p[0] for s, p, _ in ecu.replies if s == sess and len(p) in (2, 3, 4, 6) and p[1:] == bytes(len(p) - 1)}
             missing = expected_probed - probed_here
+            if aborted:
+                # a request went unanswered: the scan of a session may stop early (or never start), but it must not leave gaps:
+                # ids are probed in ascending order, each in the claimed session
+                # (3E 00 may be the start-up ping or the cyclic tester-present worker rather than a probe)
+                last = max((probed_here & expected_probed) - {0x3E}, default=-1)
+                missing = {m for m in missing if m < last}
             if missing:
                 violation(res, "C10/probes", f"C10/probes:not-probed-in-claimed-session:{'response-ids' if all(m & 0x40 for m in missing) else 'ids'}",
                           f"session {sess:#x}: service ids {sorted(map(hex, missing))[:12]} were never probed while the ECU was in that session")
@@ -381,7 +419,7 @@ class C10(Check):
                 violation(res, "C10/probes", "C10/probes:response-ids-probed", f"response ids {sorted(map(hex, resp_ids))[:8]} were probed although not asked for")
         unreachable = plan["sessions"] is not None and len(scanned) < len([s for s in plan["sessions"] if not (s in skip and skip[s] is None)])
         want_exit = 1 if unreachable else 0
-        if out["exit"] != want_exit:
+        if out["exit"] != want_exit and not aborted:
             violation(res, "C10/exit", f"C10/exit:services:{out['exit']}-want-{want_exit}", f"exit code {out['exit']}, expected {want_exit} (sessions {plan['sessions']}, entered {[s for _, s in scanned]})")
         res["nontrivial"] = n_found > 0 and (n_not > 0 or unreachable)
         res["note"]["summary"] = f"f{n_found}"
